@@ -56,7 +56,10 @@ RULE = ('trees to depth 4 over And/Or/Not/Switch (with and without default=) who
         'metaclass is not `type` (18 stdlib ABCs, Enum, IntEnum, custom metaclass, user ABC) and two '
         'instance-dependent types x one value per class (with / without the attribute), also as one object on all '
         'of them; COPIES: a fraction of all non-program cases uses copy.copy / copy.deepcopy / pickle round trip of '
-        'the spec object. '
+        'the spec object; callables (atoms and Check validators) as named functions, callable instances and '
+        'functools.partial objects; Check sequence arguments (type / instance_of / one_of / validate) as list AND '
+        'tuple, kept as written; defaults as plain values, Val, T, and list / tuple displays holding T; targets '
+        'include instances of user subclasses of the builtin containers and of str; `result is target` observed. '
         'non-trivial = the tree has a '
         'combinator with >= 2 children, or a Check with >= 1 condition, or the outcome is not a plain pass; '
         'distinct = distinct (spec or operator expression, target)')
